@@ -30,6 +30,16 @@ use crate::octet::Octet;
 #[cfg(all(target_arch = "aarch64", feature = "std"))]
 use std::arch::is_aarch64_feature_detected;
 
+// Verification hook (compiled only with --cfg raptorq_verif): CPU feature detection as seen by the dispatchers below
+// can be capped at a forced kernel level, so that every dispatcher runs its own, unmodified code for that level
+// (including the final portable branch) exactly as it would on a CPU without the masked features.
+#[cfg(all(raptorq_verif, any(target_arch = "x86", target_arch = "x86_64"), feature = "std"))]
+macro_rules! is_x86_feature_detected {
+    ($f:tt) => {
+        (verif_kernels::feature_allowed($f) && std::is_x86_feature_detected!($f))
+    };
+}
+
 // An octet vec containing only binary values, which are bit-packed for efficiency
 pub struct BinaryOctetVec {
     // Values are stored packed into the highest bits, with the last value at the highest bit of the
@@ -97,10 +107,6 @@ pub fn fused_addassign_mul_scalar_binary(
     assert_eq!(octets.len(), other.len());
     if octets.is_empty() {
         return;
-    }
-    #[cfg(raptorq_verif)]
-    if verif_kernels::forced() != verif_kernels::Level::Auto {
-        return verif_kernels::fma_binary_at(verif_kernels::forced(), octets, other, scalar);
     }
     #[cfg(all(any(target_arch = "x86", target_arch = "x86_64"), feature = "std"))]
     {
@@ -618,10 +624,6 @@ unsafe fn mulassign_scalar_ssse3(octets: &mut [u8], scalar: &Octet) {
 
 #[inline]
 pub fn mulassign_scalar(octets: &mut [u8], scalar: &Octet) {
-    #[cfg(raptorq_verif)]
-    if verif_kernels::forced() != verif_kernels::Level::Auto {
-        return verif_kernels::mulassign_scalar_at(verif_kernels::forced(), octets, scalar);
-    }
     #[cfg(all(any(target_arch = "x86", target_arch = "x86_64"), feature = "std"))]
     {
         if is_x86_feature_detected!("avx512f") && is_x86_feature_detected!("avx512bw") {
@@ -836,10 +838,6 @@ pub fn fused_addassign_mul_scalar(octets: &mut [u8], other: &[u8], scalar: &Octe
     );
 
     assert_eq!(octets.len(), other.len());
-    #[cfg(raptorq_verif)]
-    if verif_kernels::forced() != verif_kernels::Level::Auto {
-        return verif_kernels::fma_at(verif_kernels::forced(), octets, other, scalar);
-    }
     #[cfg(all(any(target_arch = "x86", target_arch = "x86_64"), feature = "std"))]
     {
         if is_x86_feature_detected!("avx512f") && is_x86_feature_detected!("avx512bw") {
@@ -1057,10 +1055,6 @@ unsafe fn add_assign_ssse3(octets: &mut [u8], other: &[u8]) {
 
 #[inline]
 pub fn add_assign(octets: &mut [u8], other: &[u8]) {
-    #[cfg(raptorq_verif)]
-    if verif_kernels::forced() != verif_kernels::Level::Auto {
-        return verif_kernels::add_assign_at(verif_kernels::forced(), octets, other);
-    }
     #[cfg(all(any(target_arch = "x86", target_arch = "x86_64"), feature = "std"))]
     {
         if is_x86_feature_detected!("avx512f") {
@@ -1133,23 +1127,33 @@ pub mod verif_kernels {
         }
     }
 
+    /// May a dispatcher see CPU feature `f` under the currently forced level?
+    pub fn feature_allowed(f: &str) -> bool {
+        match forced() {
+            Level::Auto | Level::Avx512 | Level::Neon => true,
+            Level::Avx2 => !f.starts_with("avx512"),
+            Level::Ssse3 => !f.starts_with("avx512") && f != "avx2" && f != "bmi1",
+            Level::Portable => false,
+        }
+    }
+
     #[allow(unreachable_code)]
     pub fn supported(level: Level) -> bool {
         match level {
             Level::Auto | Level::Portable => true,
             Level::Ssse3 => {
                 #[cfg(all(any(target_arch = "x86", target_arch = "x86_64"), feature = "std"))]
-                return is_x86_feature_detected!("ssse3");
+                return std::is_x86_feature_detected!("ssse3");
                 false
             }
             Level::Avx2 => {
                 #[cfg(all(any(target_arch = "x86", target_arch = "x86_64"), feature = "std"))]
-                return is_x86_feature_detected!("avx2") && is_x86_feature_detected!("bmi1");
+                return std::is_x86_feature_detected!("avx2") && std::is_x86_feature_detected!("bmi1");
                 false
             }
             Level::Avx512 => {
                 #[cfg(all(any(target_arch = "x86", target_arch = "x86_64"), feature = "std"))]
-                return is_x86_feature_detected!("avx512f") && is_x86_feature_detected!("avx512bw");
+                return std::is_x86_feature_detected!("avx512f") && std::is_x86_feature_detected!("avx512bw");
                 false
             }
             Level::Neon => {
@@ -1223,8 +1227,7 @@ pub mod verif_kernels {
         fused_addassign_mul_scalar_fallback(octets, other, scalar)
     }
 
-    // Levels without a packed-bit kernel (SSSE3, portable) take the generic route of the dispatcher: unpack
-    // the bits, then the byte kernel of that level.
+    // Levels without a packed-bit kernel (SSSE3, portable) take the dispatcher's own final branch.
     pub fn fma_binary_at(level: Level, octets: &mut [u8], other: &BinaryOctetVec, scalar: &Octet) {
         assert!(supported(level));
         assert_eq!(octets.len(), other.len());
@@ -1245,11 +1248,11 @@ pub mod verif_kernels {
                 return fused_addassign_mul_scalar_binary_neon(octets, other, scalar);
             }
         }
-        if *scalar == Octet::one() {
-            add_assign_at(level, octets, &other.to_octet_vec())
-        } else {
-            fma_at(level, octets, &other.to_octet_vec(), scalar)
-        }
+        // no packed-bit kernel at this level: the dispatcher's own final branch, with detection capped at `level`
+        let before = forced();
+        force(level);
+        fused_addassign_mul_scalar_binary(octets, other, scalar);
+        force(before);
     }
 }
 
